@@ -20,9 +20,9 @@ import (
 
 // RegStep is one step of a registration history.
 type RegStep struct {
-	Kind   string     `json:"kind"` // register | update-inputs | start
-	Spec   *ProbeSpec `json:"spec,omitempty"`
-	Target string     `json:"target,omitempty"` // update-inputs: controller name
+	Kind   string      `json:"kind"` // register | update-inputs | start
+	Spec   *ProbeSpec  `json:"spec,omitempty"`
+	Target string      `json:"target,omitempty"` // update-inputs: controller name
 	Inputs []InputSpec `json:"inputs,omitempty"`
 }
 
